@@ -718,7 +718,7 @@ fn sub_kit_pairs(tier: Tier) -> Sub {
 }
 
 pub fn def(tier: Tier) -> CheckDef {
-    let mut subs = vec![sub_forest(tier), sub_kit_pairs(tier)];
+    let mut subs = vec![sub_forest(Tier::Thorough), sub_kit_pairs(Tier::Thorough)]; // cheap: thorough bounds in both tiers
     subs.extend(super::c12x::subs(tier));
     CheckDef {
         level: "exploration",
